@@ -17,7 +17,9 @@ RULE = ("case = a legal generated (declaration, configuration) whose base is ver
         "attributes; a parameter repeated; a mode outside the documented list (case variants, typos, another feature's "
         "mode; iter's documented \"match\" is NOT in this set); a visibility outside \"\"|pub(crate)|pub; a value of the "
         "wrong kind (28 forms); range without iter; range with iter table_inline; iter range mode on holes; bare / "
-        "name-value enum_tools attribute; 20 invalid variant-level attribute forms. Oracle: rustc must exit non-zero. "
+        "name-value enum_tools attribute; 20 invalid variant-level attribute forms; plus a deterministic matrix: every one of "
+        "the 18 parsers x every parameter it does not take (name, vis, mode, struct_name, value, bogus, rename) x bare / "
+        "well-formed value, on a gapless and a with-holes enum. Oracle: rustc must exit non-zero. "
         "non-trivial = base compiled and the mutation is the only difference (true by construction, counted after the "
         "base compile succeeds); distinct by (operator detail, attribute text)")
 
@@ -35,6 +37,45 @@ def cases(draw, tier="quick"):
     return {"spec": spec, "cfg": cfg, "op": op, "seed": draw(st.integers(0, 2 ** 31))}
 
 
+MATRIX_PARAMS = {"name": ["\"x_y\"", None], "vis": ["\"pub\"", "\"pub(crate)\"", "\"\"", None], "mode": ["\"table\"", "\"match\"", "\"auto\"", None],
+                 "struct_name": ["\"XStruct\"", None], "value": [None, "\"x\""], "bogus": [None, "\"x\""], "rename": ["\"x\""]}
+MATRIX_SHAPES = [("u8", [0, 1, 2]), ("i16", [-5, -4, 3, 9])]
+
+
+def fixed_cases(tier):
+    return [{"param_matrix": True}]
+
+
+def run_param_matrix(case):
+    """Every parser x every parameter it does NOT take x bare / well-formed value: each must be rejected.
+    (A parameter another feature would accept, with a value that is well formed there, is the realistic slip.)"""
+    import concurrent.futures
+    out = J.Outcome()
+    jobs = []
+    for r, vals in MATRIX_SHAPES:
+        spec = {"repr": r, "vis": "pub", "ident": "E", "enum_attrs": [],
+                "variants": [{"ident": "V%d" % i, "disc": str(v)} for i, v in enumerate(vals)]}
+        for fname, legal in sorted(MU.PARAM_FEATURES.items()):
+            for pname, forms in MATRIX_PARAMS.items():
+                if pname in legal:
+                    continue
+                for form in forms:
+                    ptxt = pname if form is None else "%s = %s" % (pname, form)
+                    feats = ([{"f": "iter", "params": []}] if fname == "range" else []) + [{"f": "_raw", "raw": "%s(%s)" % (fname, ptxt)}]
+                    cfg = {"feats": feats, "groups": [len(feats)], "pos": ["pre"]}
+                    jobs.append((fname, ptxt, E.enum_item_text(spec, cfg)))
+    with concurrent.futures.ThreadPoolExecutor(max_workers=16) as ex:
+        res = list(ex.map(lambda j: J.accepts(j[2])[0], jobs))
+    for (fname, ptxt, item), ok in zip(jobs, res):
+        if ok:
+            out.violate("a parameter the feature does not take was accepted (silently ignored)", feature=fname, parameter=ptxt, item=item[:1500])
+    out.count("param_matrix_cases", len(jobs))
+    out.nontrivial = True
+    out.fingerprint = J.fp("param_matrix")
+    out.sample = {"param_matrix_cases": len(jobs), "example": jobs[0][2].split("\n")[:6]}
+    return out
+
+
 def build_mutant(case):
     rnd = J.case_rng(case)
     spec, cfg = case["spec"], case["cfg"]
@@ -47,6 +88,8 @@ def build_mutant(case):
 
 
 def run_case(case):
+    if "param_matrix" in case:
+        return run_param_matrix(case)
     out = J.Outcome()
     spec, cfg = case["spec"], case["cfg"]
     base_ok, base_err = J.accepts(E.enum_item_text(spec, cfg))
